@@ -459,8 +459,42 @@ def _verus_writer_copy_from(prop: str) -> List[Obl]:
     return out
 
 
+CT_LEMMAS = ("lemma_sbits_add", "lemma_cast64_bits", "lemma_up_bits", "lemma_shr_bits_w", "lemma_clear_low", "lemma_ct_be_from_buffer", "lemma_ct_word",
+             "lemma_ct_be_final", "lemma_ct_le_from_buffer", "lemma_ct_le_final", "lemma_sbit_word", "lemma_shl1_bits", "lemma_shr_bits", "lemma_upcast_bits",
+             "lemma_wbit_bb", "lemma_wbit_w")
+
+
+def _verus_reader_copy_to(prop: str) -> List[Obl]:
+    """Unbounded proof of the optimised BufBitReader::copy_to (every n, every Inv_R state, generic same-endianness destination)."""
+    out = []
+    pl = prop.lower()
+    for w in RWORDS:
+        n = int(w[1:])
+        bb = BBTYPE[w]
+        unit = f"reader_copy_to@W={w};N={n};BB={bb};M={2 * n};LZINC={'lz128.inc' if bb == 'u128' else 'empty.inc'}"
+        for el, E in ENDIANS:
+            out.append(Obl(id=f"{pl}.verus.copy_to.{E}.{w}", prop=prop, engine="verus", target=f"{unit}:copy_to_{el}",
+                           fns=[f"BufBitReader<{E},_<{w}>>::copy_to"],
+                           note="real text, WR::Word / BB<WR> instantiated; every n, every Inv_R state (incl. more than one word buffered), any same-endianness "
+                                "BitWrite destination (trait contract); writer view' = view ++ the reader's next n bits, reader advanced by n, Inv_R'; "
+                                "read_bits taken by contract (Kani c02.read_bits); default configuration"))
+        for l in CT_LEMMAS:
+            out.append(Obl(id=f"{pl}.verus.copy_to.{l}.{w}", prop=prop, engine="verus", target=f"{unit}:{l}", fns=[]))
+        out.append(Obl(id=f"{pl}.std_spec.rotate_left.{bb}", prop=prop, engine="kani", target=f"obl_stdspec::std_spec_rotate_left_{bb}", fns=[f"{bb}::rotate_left"],
+                       note="discharges the rotate_left axiom of the Verus unit"))
+    out.append(Obl(id=f"{pl}.std_spec.ord_min", prop=prop, engine="kani", target="obl_stdspec::std_spec_ord_min_u64", fns=["Ord::min"],
+                   note="discharges the Ord::min rewrite of the Verus unit"))
+    # the read_bits contract clause the unit relies on
+    for el, E in ENDIANS:
+        for w in RWORDS:
+            out.append(Obl(id=f"{pl}.read_bits_contract.{E}.{w}", prop=prop, engine="kani", target=f"obl_reader::{el}::{w}_::c02_read_bits",
+                           tier="quick" if w in QUICK_R else "thorough", only=r"c02.read_bits",
+                           fns=[f"BufBitReader<{E},_<{w}>>::read_bits"], note="the read_bits contract the Verus copy_to unit takes as given"))
+    return out
+
+
 def _c08() -> List[Obl]:
-    out = _stdspec("C08", ["min_u64"]) + _verus_writer_copy_from("C08")
+    out = _stdspec("C08", ["min_u64"]) + _verus_writer_copy_from("C08") + _verus_reader_copy_to("C08")
     for u, fn in (("copy_to_generic", "copy_to"), ("copy_from_generic", "copy_from")):
         for feats in ("", "checks"):
             sfx = ".checks" if feats else ""
